@@ -60,6 +60,7 @@ func (w *World) projSupplyQueries(ctx sdk.Context) J {
 	w.App.BankKeeper.IterateTotalSupply(ctx, func(c sdk.Coin) bool {
 		if !c.Amount.IsZero() {
 			den = append(den, c.Denom)
+			bank[c.Denom] = absInt(c.Amount)
 		}
 		return false
 	})
@@ -73,15 +74,16 @@ func (w *World) projSupplyQueries(ctx sdk.Context) J {
 	n := len(den)
 	pages := J{}
 	for lim := 1; lim <= n+1; lim++ {
-		for _, mode := range []string{"key", "off"} {
+		for _, mode := range []string{"key", "off", "rkey", "roff"} {
+			rev := mode[0] == 'r'
 			var got []interface{}
 			var amts []interface{}
 			var next []byte
 			off := uint64(0)
 			ok := true
 			for it := 0; it < n+3; it++ {
-				pr := &query.PageRequest{Limit: uint64(lim)}
-				if mode == "key" {
+				pr := &query.PageRequest{Limit: uint64(lim), Reverse: rev}
+				if mode == "key" || mode == "rkey" {
 					pr.Key = next
 				} else {
 					pr.Offset = off
@@ -91,11 +93,21 @@ func (w *World) projSupplyQueries(ctx sdk.Context) J {
 					ok = false
 					break
 				}
+				// a page is an sdk.Coins value (ascending inside the page in both directions); reverse listings
+				// deliver the PAGES in descending order, so they are prepended
+				var pd, pa []interface{}
 				for _, c := range r.Supply {
-					got = append(got, c.Denom)
-					amts = append(amts, absInt(c.Amount))
+					pd = append(pd, c.Denom)
+					pa = append(pa, absInt(c.Amount))
 				}
-				if mode == "key" {
+				if rev {
+					got = append(pd, got...)
+					amts = append(pa, amts...)
+				} else {
+					got = append(got, pd...)
+					amts = append(amts, pa...)
+				}
+				if mode == "key" || mode == "rkey" {
 					next = r.Pagination.NextKey
 					if len(next) == 0 {
 						break
@@ -111,6 +123,7 @@ func (w *World) projSupplyQueries(ctx sdk.Context) J {
 				got = []interface{}{}
 				amts = []interface{}{}
 			}
+
 			pages[fmt.Sprintf("%s:%d", mode, lim)] = J{"ok": ok, "denoms": got, "amts": amts}
 		}
 	}
